@@ -232,6 +232,9 @@ impl EventGen for Container {
                     context.update_element(&new_el);
                     // any transform (e.g. on an <a>) moves the content as it does for <g>
                     bbox = new_el.transformed(bbox)?;
+                } else if self.0.name == "text" {
+                    // text with child elements (tspan etc): its anchor point
+                    bbox = new_el.bbox()?;
                 }
 
                 if bbox.is_some() {
@@ -309,6 +312,17 @@ impl EventGen for OtherElement {
             };
 
             output.push(adapted);
+        }
+        if self.0.name == "text" {
+            // The extent includes the text's anchor as written: `text-loc` / relative
+            // positioning move it by the text offset after `e` was positioned.
+            let anchor = output.iter().find_map(|ev| match ev {
+                OutputEvent::Start(t) if t.name == "text" => t.bbox().ok().flatten(),
+                _ => None,
+            });
+            if anchor.is_some() {
+                bb = anchor;
+            }
         }
         if self.0.name == "point" {
             // point elements have no bounding box, and are primarily used for
